@@ -223,3 +223,17 @@ func meOK(f *function) bool {
 //@   requires ce != nil && m != nil
 //@   ensures[closed-module-is-never-success] err == nil ==> m.Closed.Load() == 0
 //@   nosafety
+
+// ---- C09: compiled functions shared through a compilation cache are dropped by the LAST user only.
+func hasCompiled(e *engine, id wasm.ModuleID) bool { _, ok := e.compiledFunctions[id]; return ok }
+func refsOf(e *engine, id wasm.ModuleID) int       { return e.compiledRefs[id] }
+
+//@ prop C09
+//@ func (e *engine) retainCompiledFunctions(module *wasm.Module)
+//@   requires refsOf(e, module.ID) >= 0 && refsOf(e, module.ID) < 1<<40
+//@   ensures[one-more-user] refsOf(e, module.ID) == old(refsOf(e, module.ID)) + 1
+//@   ensures[entries-untouched] hasCompiled(e, module.ID) == old(hasCompiled(e, module.ID))
+
+//@ func (e *engine) deleteCompiledFunctions(module *wasm.Module)
+//@   ensures[shared-entry-survives] old(refsOf(e, module.ID)) > 1 ==> hasCompiled(e, module.ID) == old(hasCompiled(e, module.ID)) && refsOf(e, module.ID) == old(refsOf(e, module.ID)) - 1
+//@   ensures[last-user-removes-it] old(refsOf(e, module.ID)) <= 1 ==> !hasCompiled(e, module.ID) && refsOf(e, module.ID) == 0
